@@ -1223,7 +1223,8 @@ func c16Semantic(idx int) *c16Prog {
 		g.expect("n4", "closed-recv-expr:not-nil", "true")
 	case "ok-form":
 		feed(1)
-		m.WriteString("v = \"init\"; ok = \"init\"\nv, ok = <-c\nreport(\"v1\", v); report(\"ok1\", ok)\nv = \"keep\"\nv, ok = <-c\nreport(\"v2\", v); report(\"ok2\", ok)\nv, ok = <-c\nreport(\"v3\", v); report(\"ok3\", ok)\n")
+		// the blanks between '=' and '<-' do not matter
+		m.WriteString("v = \"init\"; ok = \"init\"\nv, ok = <-c\nreport(\"v1\", v); report(\"ok1\", ok)\nv = \"keep\"\nv, ok =<-c\nreport(\"v2\", v); report(\"ok2\", ok)\nv, ok =  \t<- c\nreport(\"v3\", v); report(\"ok3\", ok)\n")
 		g.expect("v1", "recv-ok:wrong-value", val(0))
 		g.expect("ok1", "recv-ok:ok-not-true", "true")
 		g.expect("v2", "closed-recv-ok:value-touched", ank.Render("keep"))
